@@ -301,8 +301,26 @@ func seqMap(a map[string]string) {
 			run(l)
 		}
 		if hm != 0 {
-			// fully colliding keys make long chains: short mixed sequences
-			for i := 0; i < 150 && i < nops; i++ {
+			// fully colliding keys make long chains: a chain-with-holes phase, then short mixed traffic
+			n := 7 + r.intn(10)
+			for i := 0; i < n; i++ {
+				k := fmt.Sprintf("c%d", i)
+				g.add(k)
+				emit(fmt.Sprintf("store %s %s", k, g.v()))
+			}
+			// empty (part of) the earliest buckets, then look at everything behind the holes
+			nd := 1 + r.intn(6)
+			for i := 0; i < nd && i < n; i++ {
+				emit(fmt.Sprintf("delete c%d", i))
+			}
+			for i := 0; i < n; i++ {
+				emit(fmt.Sprintf("load c%d", i))
+			}
+			emit("range *")
+			for i := 0; i < 2; i++ {
+				emit(fmt.Sprintf("loadorstore c%d %s", r.intn(n), g.v()))
+			}
+			for i := 0; i < 100 && i < nops; i++ {
 				emit(g.op())
 			}
 			continue
@@ -357,6 +375,10 @@ func seqMap(a map[string]string) {
 					}
 					if r.chance(1, 30) {
 						emit("size")
+					}
+					if len(mine) > 0 && r.chance(1, 3) {
+						// a survivor must still be found behind the holes the deletes leave in its chain
+						emit("load " + mine[r.intn(len(mine))])
 					}
 				}
 				g.live = nil
